@@ -122,6 +122,11 @@ def cases(tier, seed):
             for mp in ("generic", "identity"):
                 for kink in (False, True):
                     out.append({"kind": "geom", "elemType": list(mix), "src": "t", "k": k, "distort": False, "map": mp, "kink": kink})
+    # tapered HEXA / PRISM cells (planar faces, straight edges, NOT affine: the jacobian varies inside every cell)
+    for et in Z.TYPES_3D:
+        if Z.topo(et) in ("HEXA", "PRISM"):
+            for mp in ("identity", "generic"):
+                out.append({"kind": "geom", "elemType": et, "src": "t", "k": 2, "distort": False, "map": mp, "taper": True})
     # a part and its mirror image (Mesh.Symmetry on a copy) merged into ONE group: element orientation is not uniform in the group
     for et in Z.ALL_TYPES:
         if Z.dim_of(et) > 1:
@@ -290,10 +295,13 @@ def _run_geom(case):
     A, b = _map(case["map"], d)
     if case.get("kink"):
         zm = zm.kinked(0.5, 0.3)
+    if case.get("taper"):
+        zm = zm.tapered(0.3)
+        dist = True  # (not affine: the monomial and boundary references below do not apply)
     zm2 = zm.mapped(A, b)
     mesh = zm2.build()
     v = []
-    key = dict(kink=bool(case.get("kink", False)), elemType=str(et), k=case["k"], distort=dist, map=case["map"])
+    key = dict(kink=bool(case.get("kink", False)), taper=bool(case.get("taper", False)), elemType=str(et), k=case["k"], distort=dist, map=case["map"])
     meas = {1: "length", 2: "area", 3: "volume"}[d]
     got = getattr(mesh, meas)
     nent = 1
